@@ -65,16 +65,19 @@ def ranks(lab):
     return [u.index(x) + 1 for x in lab]
 
 
-def gen_mats(rs, n):
-    """kind -> matrix as list of lists of Fractions (empty diagonal)"""
+def gen_mats(rs, n, dens=None):
+    """kind -> matrix as list of lists of Fractions (empty diagonal); dens overrides the per-kind densities (sparse large cases)"""
     def und(M):
         for i in range(n):
             M[i][i] = Fr(0)
             for j in range(i):
                 M[i][j] = M[j][i]
         return M
-    def draw(vals, dens):
-        return [[Fr(int(rs.choice(vals))) if rs.rand() < dens else Fr(0) for _ in range(n)] for _ in range(n)]
+    def draw(vals, d0):
+        d = d0 if dens is None else dens
+        mask = rs.rand(n, n) < d
+        v = rs.choice(vals, size=(n, n))
+        return [[Fr(int(v[i, j])) if mask[i, j] else Fr(0) for j in range(n)] for i in range(n)]
     m = {}
     m['bu'] = und(draw([1], .6))
     m['wu'] = und(draw([1, 2, 3, 4, 5], .7))
@@ -88,6 +91,26 @@ def gen_mats(rs, n):
     return m
 
 
+# large near-singleton partitions (>= 128 modules): data lives in a module global filled before the worker pool forks
+LARGE = {}
+
+
+def large_partition(rs, n, k):
+    """restricted-growth labels of a random partition of n nodes into exactly k modules"""
+    lab = list(range(k)) + [int(x) for x in rs.randint(0, k, size=n - k)]
+    lab = [lab[i] for i in rs.permutation(n)]
+    return tuple(r - 1 for r in first_occ(lab))
+
+
+def large_relabellings(c, rs):
+    """identity, two order-changing renamings, an order-preserving one, and a sparse non-contiguous one"""
+    k = max(c) + 1
+    perm = rs.permutation(k)
+    sparse = rs.choice(np.arange(-5000, 50000), size=k, replace=False)
+    return [('identity', [x + 1 for x in c]), ('reversal', [k - x for x in c]), ('shuffled', [int(perm[x]) + 1 for x in c]),
+            ('plus100', [x + 101 for x in c]), ('sparse', [int(sparse[x]) for x in c])]
+
+
 def fmat(W):
     return np.array([[float(x) for x in r] for r in W], dtype=float)
 
@@ -99,6 +122,14 @@ def rat_str(x):
 
 def rmat_str(W):
     return ','.join(rat_str(x) for r in W for x in r)
+
+
+def wdet(W):
+    """matrix in a violation detail: row-major rationals for small n, 'i:j:w' triples of the nonzero cells for large sparse ones"""
+    n = len(W)
+    if n <= 10:
+        return {'W': rmat_str(W)}
+    return {'W_sparse': ';'.join('%d:%d:%s' % (i, j, rat_str(W[i][j])) for i in range(n) for j in range(n) if W[i][j] != 0)}
 
 
 def ints_str(v):
@@ -328,29 +359,36 @@ def model_value(bname, line, n):
 def run_consumers(case):
     """case: n, rgs, mats{kind: W}, relabs[(name, labels)], model(bool). Evaluates every variant under every relabelling."""
     bct = import_bct()
+    if 'large' in case:                      # large case: matrices / labels are in the forked global, the item names one variant
+        case = dict(LARGE[case['large']], only=case['only'], model=False)
     n, c = case['n'], case['rgs']
     k = max(c) + 1
+    T = 5 if n <= 10 else 30
     out = {'viol': [], 'lean': [], 'evals': 0, 'keys': [], 'dist': {}, 'sample': None}
     ident_rank = ranks(case['relabs'][0][1])
     for vid, bname, kind, kw, op, extra in variants():
+        if case.get('only') is not None and vid != case['only']:
+            continue
         W = case['mats'][kind]; A = fmat(W)
+        if n > 10:
+            out['dist']['large_case_calls:' + bname] = out['dist'].get('large_case_calls:' + bname, 0) + len(case['relabs'])
         f = getattr(bct, bname)
         pykw = {a: (float(b) if isinstance(b, Fr) else b) for a, b in kw.items()}
         res = {}
         for name, lab in case['relabs']:
             A0 = A.copy(); la = larr(lab); la0 = la.copy()
             if bname in ('modularity_und', 'modularity_dir'):
-                st, o = call(f, A, pykw['gamma'], la, t=5)
+                st, o = call(f, A, pykw['gamma'], la, t=T)
             elif bname == 'modularity_und_sign':
-                st, o = call(f, A, la, pykw['qtype'], t=5)
+                st, o = call(f, A, la, pykw['qtype'], t=T)
             else:
-                st, o = call(f, A, la, t=5, **pykw)
+                st, o = call(f, A, la, t=T, **pykw)
             res[name] = canon(st, o, bname)
             out['evals'] += 1
             tally(out, bname, st)
             out['dist']['call:' + bname] = out['dist'].get('call:' + bname, 0) + 1
             if not np.array_equal(la, la0):
-                out['viol'].append((bname, 'labels-modified', {'n': n, 'W': rmat_str(W), 'labels': lab, 'variant': vid}, {}))
+                out['viol'].append((bname, 'labels-modified', dict(wdet(W), n=n, labels=lab, variant=vid), {}))
             if case['model'] and op is not None and is_int_labels(lab):
                 out['lean'].append(('%s n=%d W=%s c=%s %s' % (op, n, rmat_str(W), ints_str(lab), extra), bname, vid, name, lab, res[name], kind))
         base = res['identity']
@@ -365,22 +403,22 @@ def run_consumers(case):
             if not same(base, res[name]):
                 mono = ranks(lab) == ident_rank
                 out['viol'].append((bname, 'label-invariance',
-                                    {'n': n, 'W': rmat_str(W), 'kind': kind, 'variant': vid, 'kwargs': {a: str(b) for a, b in kw.items()},
+                                    dict(wdet(W), **{'n': n, 'kind': kind, 'variant': vid, 'kwargs': {a: str(b) for a, b in kw.items()},
                                      'labels': case['relabs'][0][1], 'relabelled': lab, 'relabelling': name,
-                                     'result': base, 'result_relabelled': res[name]},
+                                     'result': base, 'result_relabelled': res[name]}),
                                     {'order_preserving': mono, 'multi_node_module': len(set(c)) < n}))
         # predicate 2: the result equals the definition evaluated with label *equality* only
         o = oracle(vid, bname, W, case['relabs'][0][1], kw)
         if o is not None and base[0] == 'val':
             if not same(base, oracle_floats(bname, o, k), 1e-9):
-                out['viol'].append((bname, 'definition', {'n': n, 'W': rmat_str(W), 'variant': vid, 'labels': case['relabs'][0][1],
+                out['viol'].append((bname, 'definition', {'n': n, **wdet(W), 'variant': vid, 'kind': kind, 'labels': case['relabs'][0][1],
                                                           'result': base, 'expected': oracle_floats(bname, o, k)}, {}))
         elif base[0] == 'exc' and (o is not None or base[1] != 'IndexError'):
-            out['viol'].append((bname, 'raises', {'n': n, 'W': rmat_str(W), 'variant': vid, 'labels': case['relabs'][0][1], 'exception': base[1]}, {}))
+            out['viol'].append((bname, 'raises', {'n': n, **wdet(W), 'variant': vid, 'kind': kind, 'labels': case['relabs'][0][1], 'exception': base[1]}, {}))
         nontriv = k >= 2 and base[0] == 'val' and any(x != 0 and not math.isnan(x) for p in base[1] for x in p)
         if nontriv:
-            out['keys'].append(digest([vid, rmat_str(W), c]))
-            if out['sample'] is None:
+            out['keys'].append(digest([vid, wdet(W), c]))
+            if out['sample'] is None and n <= 10:
                 out['sample'] = {'function': vid, 'n': n, 'W': rmat_str(W), 'partition': list(c), 'relabellings': [r[0] for r in case['relabs']],
                                  'result': base[1]}
     return out
@@ -482,7 +520,8 @@ def run_lists(case):
             out['viol'].append(('ci2ls', 'blocks-are-the-modules', dict(det, ls=lsl), {}))
         exp_order = [sorted(b) for b in sorted(modules_of(lab), key=lambda b: lab[b[0]])]
         if is_int_labels(lab):
-            out['lean'].append(('ci2ls n=%d c=%s' % (n, ints_str(lab)), 'ci2ls', 'ci2ls', name, lab, ('val', lsl), exp_order))
+            if n <= 10:   # large cases are not sent to the interpreted Lean driver
+                out['lean'].append(('ci2ls n=%d c=%s' % (n, ints_str(lab)), 'ci2ls', 'ci2ls', name, lab, ('val', lsl), exp_order))
         for z in (False, True):
             st2, ci = call(bct.ls2ci, lsl, z, t=5); out['evals'] += 1; tally(out, 'ls2ci', st2)
             if st2 != 'ok':
@@ -503,7 +542,8 @@ def run_lists(case):
             if st != 'ok':
                 out['viol'].append(('ls2ci', 'raises', {'ls': bl, 'exception': str(ci)}, {})); continue
             ci = [int(v) for v in ci]
-            out['lean'].append(('ls2ci n=%d ls=%s z=%d' % (n, '|'.join(ints_str(b) for b in bl), 0 if z else 1), 'ls2ci', 'ls2ci', 'blocks', bl, ('val', ci), None))
+            if n <= 10:   # large cases are not sent to the interpreted Lean driver
+                out['lean'].append(('ls2ci n=%d ls=%s z=%d' % (n, '|'.join(ints_str(b) for b in bl), 0 if z else 1), 'ls2ci', 'ls2ci', 'blocks', bl, ('val', ci), None))
             st, ls2 = call(bct.ci2ls, np.array(ci), t=5); out['evals'] += 1; tally(out, 'ci2ls', st)
             if st != 'ok' or [[int(v) for v in b] for b in ls2] != [sorted(b) for b in bl]:
                 out['viol'].append(('ci2ls', 'inverse-of-ls2ci', {'ls': bl, 'ci': ci, 'back': str(ls2)}, {}))
@@ -533,8 +573,9 @@ def run_agreement(case):
             res[name] = np.asarray(D).astype(float).tolist()
             if res[name] != [[float(v) for v in r] for r in exp]:
                 out['viol'].append(('agreement', 'definition', dict(det, result=res[name], expected=exp), {}))
-        out['lean'].append(('agreement n=%d cs=%s' % (n, ';'.join(ints_str(c) for c in cols)), 'agreement', 'agreement', name, cols,
-                            ('val', res.get(name)), exp))
+        if n <= 10:
+            out['lean'].append(('agreement n=%d cs=%s' % (n, ';'.join(ints_str(c) for c in cols)), 'agreement', 'agreement', name, cols,
+                                ('val', res.get(name)), exp))
     if res.get('identity') is not None and res.get('relabelled') is not None and res['identity'] != res['relabelled']:
         out['viol'].append(('agreement', 'label-invariance', {'n': n, 'ci_columns': case['cols'], 'relabelled': case['cols2']}, {}))
     out['keys'].append(digest(['agr', case['cols']]))
@@ -653,14 +694,21 @@ def main():
         if rp['function'] == 'partition_distance':
             pds.append({'n': d['n'], 'x': tuple(r - 1 for r in first_occ(d['cx'])), 'y': tuple(r - 1 for r in first_occ(d['cy'])),
                         'rx': relabellings([r - 1 for r in first_occ(d['cx'])], rs), 'ry': relabellings([r - 1 for r in first_occ(d['cy'])], rs), 'model': True})
-        elif 'W' in d and 'labels' in d:
-            n = d['n']; xs = [Fr(t) for t in d['W'].split(',')]; W = [xs[i * n:(i + 1) * n] for i in range(n)]
+        elif ('W' in d or 'W_sparse' in d) and 'labels' in d:
+            n = d['n']
+            if 'W' in d:
+                xs = [Fr(t) for t in d['W'].split(',')]; W = [xs[i * n:(i + 1) * n] for i in range(n)]
+            else:
+                W = [[Fr(0)] * n for _ in range(n)]
+                for t in filter(None, d['W_sparse'].split(';')):
+                    i, j, w = t.split(':'); W[int(i)][int(j)] = Fr(w)
             c = tuple(r - 1 for r in first_occ(d['labels']))
-            mats = gen_mats(rs, n)
+            mats = gen_mats(rs, n, dens=None if n <= 10 else .02)
             for kname in mats:
                 if d.get('kind') in (None, kname):
                     mats[kname] = W
-            cons.append({'n': n, 'rgs': c, 'mats': mats, 'relabs': relabellings(c, rs), 'model': True})
+            cons.append({'n': n, 'rgs': c, 'mats': mats, 'relabs': relabellings(c, rs) if n <= 10 else large_relabellings(c, rs),
+                         'model': n <= 10, 'only': d.get('variant') if n > 10 else None})
     else:
         for n in range(1, 7):
             parts = list(set_partitions(n))
@@ -691,6 +739,27 @@ def main():
                 cols = [list(parts[rs.randint(len(parts))]) for _ in range(M)]
                 cols2 = [relabellings(col, rs)[int(rs.randint(1, 7))][1] for col in cols]
                 agrs.append({'n': n, 'cols': [[v + 1 for v in col] for col in cols], 'cols2': cols2})
+    # ---- large near-singleton partitions: >= 128 modules (label arithmetic in narrow integer types, np.max(ci)-sized loops).
+    # Python predicates only (definition + label invariance): the interpreted Lean driver needs O(n^2 k) rational operations per
+    # line and would take minutes at n = 300, so these cases are not sent to the model.
+    if not ck.replay:
+        shapes = [(130, 128), (170, 150), (230, 200), (300, 270)] if quick else \
+                 [(130, 128), (131, 129), (150, 128), (170, 150), (200, 199), (230, 200), (260, 130), (300, 270), (300, 256)]
+        for li, (n, k) in enumerate(shapes):
+            c = large_partition(rs, n, k)
+            LARGE[li] = {'n': n, 'rgs': c, 'mats': gen_mats(rs, n, dens=min(.5, 6.0 / n)), 'relabs': large_relabellings(c, rs)}
+            for v in variants():
+                if v[1] == 'gateway_coef_sign' and (n > 140 or 'betweenness' in v[0]):
+                    continue                  # gateway's Python double loop over nodes x modules: kept to the n <= 140 shapes
+                cons.append({'large': li, 'only': v[0]})
+            rel = LARGE[li]['relabs']
+            lists.append({'n': n, 'rgs': c, 'relabs': rel, 'seed': int(rs.randint(2 ** 31))})
+            c2 = large_partition(rs, n, int(rs.randint(128, k + 1)))
+            for x, y in ((c, c), (c, c2), (c2, c)):
+                pds.append({'n': n, 'x': x, 'y': y, 'rx': large_relabellings(x, rs), 'ry': large_relabellings(y, rs), 'model': False})
+            agrs.append({'n': n, 'cols': [[v + 1 for v in c], [v + 1 for v in c2]],
+                         'cols2': [large_relabellings(c, rs)[2][1], large_relabellings(c2, rs)[1][1]]})
+        ck.count('large_partition_shapes', len(shapes))
     ck.count('consumer_cases', len(cons)); ck.count('partition_distance_pairs', len(pds)); ck.count('list_cases', len(lists)); ck.count('agreement_cases', len(agrs))
     results = []
     for fn, cs in ((run_consumers, cons), (run_pd, pds), (run_lists, lists), (run_agreement, agrs)):
